@@ -169,7 +169,13 @@ class Delegate:
 class Client:
     def __init__(self, world, name, appid, mode, side, versions=None, dilation=False):
         self.lazy = mode == "deferred-lazy"      # Deferred API whose application does not ask for messages until later
-        if self.lazy:
+        # Deferred API whose application asks for each value in turn, at moments of its own choosing: get_code() at once, then
+        # get_unverified_key(), get_verifier(), get_versions(), get_message()... each issued right after some step of the
+        # run, *before* the eventual queue has run - possibly after the value exists but before earlier values' Deferreds fired
+        self.chasing = mode == "deferred-chasing"
+        self.chain = ["key", "verifier", "versions", "message"]
+        self.chase_rng = random.Random(hash((world.seed, name)) & 0xffff)
+        if self.lazy or self.chasing:
             mode = "deferred"
         self.world, self.name, self.appid, self.mode = world, name, appid, mode
         self.closed_at = None
@@ -220,10 +226,33 @@ class Client:
         for kind, getter in (("welcome", w.get_welcome), ("code", w.get_code),
                              ("key", w.get_unverified_key), ("verifier", w.get_verifier),
                              ("versions", w.get_versions)):
+            if self.chasing and kind in self.chain:
+                continue
             d = getter()
             d.addCallbacks(lambda v, k=kind: self.ev(k, v), lambda f, k=kind: self.ev(k + "!", f.value))
-        if not self.lazy:
+        if not self.lazy and not self.chasing:
             self._next_message()
+
+    def chase(self, force=0):
+        """a chasing application issues its next get_*() now (see __init__)"""
+        if not self.chasing or not self.chain:
+            return
+        n = int(force)          # how many get_*() calls to issue now: part of the schedule (act["chase"]), so that replays agree
+        w = self.w
+        for _ in range(n):
+            if not self.chain:
+                break
+            kind = self.chain.pop(0)
+            if kind == "message":
+                self._next_message()
+                continue
+            getter = {"key": w.get_unverified_key, "verifier": w.get_verifier, "versions": w.get_versions}[kind]
+            try:
+                d = getter()
+            except Exception as e:
+                self.api_errors.append(("get_" + kind, e))
+                continue
+            d.addCallbacks(lambda v, k=kind: self.ev(k, v), lambda f, k=kind: self.ev(k + "!", f.value))
 
     def _next_message(self):
         d = self.w.get_message()
@@ -437,6 +466,9 @@ class MailboxWorld:
             cl.fired = []
         a = act["a"]
         getattr(self, "_do_" + a)(act)
+        for cl in self.clients.values():
+            if getattr(cl, "chasing", False):
+                cl.chase(force=act.get("chase", 0))
         self.settle()
         self.stepno += 1
         rec = {"i": self.stepno, "a": act,
